@@ -22,7 +22,9 @@ claim("C01", "proof",
       "Theorem general_engine_eq_spec(_of_parsed): for EVERY input, every non-empty literal delimiter (also self-overlapping), every subset of "
       "-g -p -t -s -j -r -m --fallback-oob and every bounds list the parser can produce, the model of read_and_cut_str equals the abstract per-record "
       "specification (tokens by content, resolve, pieceText, joiner after every bound but the last) — output and status, never a panic; with C02 the fast "
-      "path too. End to end (Props/EndToEnd.lean, 44 theorems): tucMain (= parse_args + regex compilation + dispatch, the definition the K-argv differential ties to the "
+      "path too. The splitting / greedy / compress / trim helpers are also transcribed loop by loop (Model/TextLoops.lean: checked slices, checked usize subtraction, fuelled while loops, the memmem "
+      "iterator behind find_iter) and proved equal to the normal forms the engine theorem uses, for every line, delimiter and buffer content (Props/TextLoops.lean). "
+      "End to end (Props/EndToEnd.lean, 44 theorems): tucMain (= parse_args + regex compilation + dispatch, the definition the K-argv differential ties to the "
       "binary) on every canonical command line of field mode equals .run (specRun K.cfg input) — tuc_fields_eq_spec, and likewise --json, -M (admissible inputs, every "
       "segmentation), -b, -c, -l (both algorithms) and tuc_reject_iff_conflict. Direct oracle: implementation vs the executed specification, bounded-exhaustive + random, through read_and_cut_str, the fast lane and "
       "main's dispatch; the real binary against the library fed in small pieces on inputs up to 260 KB.",
@@ -46,8 +48,11 @@ claim("C03", "proof",
 claim("C04", "proof",
       "Theorem chunk_independent: for every -M option set whose bounds have no two adjacent literal texts (discharged for everything the parser accepts: "
       "dispatch_fixedMemory_chunk_independent has no such hypothesis) and EVERY two segmentations of the same bytes, output and status are equal; corollaries for "
-      "all buffer sizes and short reads (52 theorems). A counterexample shows the hypothesis is necessary for hand-built lists. Direct oracle: EVERY "
-      "segmentation of every small input vs the one-segment reader, on the implementation.",
+      "all buffer sizes and short reads. A counterexample shows the hypothesis is necessary for hand-built lists. The tagged-byte machine the proof is about is itself "
+      "proved equal (Props/StreamLoop.lean, cutBytesStreamLoop_eq, 70 theorems) to a statement-by-statement transcription of cut_bytes_stream — the Rust locals under their own names, "
+      "fill_buf/consume over the list of reads, the nested loops, checked chunk[i] and &chunk[a..b] — for every option record without negative indexes and every segmentation into "
+      "non-empty reads; so the loop as written never indexes out of range. Direct oracle: EVERY "
+      "segmentation of every small input vs the one-segment reader, on the implementation; inputs with fields of 1 KiB - 70 KiB under adversarial large reads.",
       TIE, "Lean 4 simulation proof over a tagged-byte machine (flush relation) + exhaustive segmentation oracle", "§4 C04")
 
 claim("C09", "proof",
@@ -65,7 +70,10 @@ claim("C10", "proof",
       TIE, "Lean 4 theorems (induction over records, Run.seq algebra, state-reset lemma) + metamorphic oracle", "§4 C10")
 
 claim("C13", "proof",
-      "Theorems (49): emit_rule (piece iff resolvable, else own fallback, else generic, else fail), piece_exact (a resolved bound is built from its own fields only), resolve_none_iff "
+      "Program level (Props/MainLevel2.lean, 103 theorems over tucMain on canonical command lines): tucMain_never_silent_fields / _lines / _bytes / _fixedMemory_admissible and the exact "
+      "fallback equations tucMain_fallback_* (own fallback, else generic, verbatim, at the bound's place); the same file lifts C15 (tucMain_complement_fields / _lines, "
+      "tucMain_complement_empty_fields) and C09 (tucMain_mirror_fields / _lines / _bytes, with a printing function boundsToText proved to parse back) to the program. "
+      "Engine level: emit_rule (piece iff resolvable, else own fallback, else generic, else fail), piece_exact (a resolved bound is built from its own fields only), resolve_none_iff "
       "(unresolvable ⇔ an index out of ±n or crossing sides), emit_never_silent; transported: readAndCutStr_never_silent, readAndCutFast_never_silent, cutLines/fwd/readAndCutLines_never_silent "
       "(both -l algorithms), readAndCutBytes_never_silent, stream_never_silent (-M, admissible inputs), for -m/--json/-c too; per-engine branch lemmas. Direct oracle: implementation vs executed "
       "specification in every mode, any subset of bounds unresolvable, final record with/without EOL.",
